@@ -149,3 +149,129 @@ def writer_roles(fn_node) -> dict:
             elif is_call_to(v0, "create_group") and "as_str_if_uuid" in txt and "h5file[base]" in txt:
                 roles[nm] = "entity_handle"
     return roles
+
+
+def const_values(expr, fn_node, _seen=()):
+    """The set of constants an expression can evaluate to, or None when that cannot be bounded.  Follows local bindings
+    (assignments in any branch, for / comprehension targets over literal sequences — positionally for tuple targets),
+    conditional expressions, `next(<generator>, default)`, `<dict literal>.get(k, default)` / `[k]`.  `None` values are dropped."""
+    if isinstance(expr, ast.Constant):
+        return set() if expr.value is None else {expr.value}
+    if isinstance(expr, ast.IfExp):
+        a, b = const_values(expr.body, fn_node, _seen), const_values(expr.orelse, fn_node, _seen)
+        return None if a is None or b is None else a | b
+    if isinstance(expr, ast.Call):
+        f = expr.func
+        if isinstance(f, ast.Name) and f.id == "next" and expr.args and isinstance(expr.args[0], ast.GeneratorExp):
+            gen = expr.args[0]
+            a = _comp_values(gen.elt, gen.generators, fn_node, _seen)
+            b = const_values(expr.args[1], fn_node, _seen) if len(expr.args) > 1 else set()
+            return None if a is None or b is None else a | b
+        if isinstance(f, ast.Attribute) and f.attr == "get" and isinstance(f.value, ast.Dict):
+            vals = set()
+            for v in f.value.values:
+                cv = const_values(v, fn_node, _seen)
+                if cv is None:
+                    return None
+                vals |= cv
+            d = const_values(expr.args[1], fn_node, _seen) if len(expr.args) > 1 else set()
+            return None if d is None else vals | d
+        return None
+    if isinstance(expr, ast.Subscript) and isinstance(expr.value, ast.Dict):
+        vals = set()
+        for v in expr.value.values:
+            cv = const_values(v, fn_node, _seen)
+            if cv is None:
+                return None
+            vals |= cv
+        return vals
+    if isinstance(expr, ast.Name):
+        if expr.id in _seen:
+            return set()
+        seen = _seen + (expr.id,)
+        out, found = set(), False
+        for n in ast.walk(fn_node):
+            if isinstance(n, (ast.Assign, ast.AnnAssign)) and n.value is not None:
+                tgs = n.targets if isinstance(n, ast.Assign) else [n.target]
+                if any(isinstance(t, ast.Name) and t.id == expr.id for t in tgs):
+                    cv = const_values(n.value, fn_node, seen)
+                    if cv is None:
+                        return None
+                    out |= cv
+                    found = True
+            elif isinstance(n, ast.For):
+                cv = _target_values(n.target, n.iter, expr.id, fn_node, seen)
+                if cv is not False:
+                    if cv is None:
+                        return None
+                    out |= cv
+                    found = True
+        a = fn_node.args
+        if expr.id in {x.arg for x in a.posonlyargs + a.args + a.kwonlyargs}:
+            return None
+        return out if found else None
+    return None
+
+
+def _literal_of(node, fn_node):
+    """a local bound exactly once to a literal table stands for that table"""
+    if isinstance(node, ast.Name) and fn_node is not None:
+        vals = [n.value for n in ast.walk(fn_node) if isinstance(n, (ast.Assign, ast.AnnAssign)) and n.value is not None
+                and any(isinstance(t, ast.Name) and t.id == node.id for t in (n.targets if isinstance(n, ast.Assign) else [n.target]))]
+        if len(vals) == 1 and isinstance(vals[0], (ast.Dict, ast.List, ast.Tuple, ast.Set)):
+            return vals[0]
+    return node
+
+
+def _seq_elements(it, fn_node=None):
+    """elements of a literal sequence / the items of a literal dict (as tuples), else None"""
+    it = _literal_of(it, fn_node)
+    if isinstance(it, ast.Call) and isinstance(it.func, ast.Attribute):
+        lit = _literal_of(it.func.value, fn_node)
+        if lit is not it.func.value:
+            it = ast.Call(func=ast.Attribute(value=lit, attr=it.func.attr, ctx=ast.Load()), args=[], keywords=[])
+    if isinstance(it, (ast.List, ast.Tuple, ast.Set)):
+        return list(it.elts)
+    if isinstance(it, ast.Call) and isinstance(it.func, ast.Attribute) and isinstance(it.func.value, ast.Dict):
+        d = it.func.value
+        if it.func.attr == "items":
+            return [ast.Tuple(elts=[k, v], ctx=ast.Load()) for k, v in zip(d.keys, d.values)]
+        if it.func.attr == "values":
+            return list(d.values)
+        if it.func.attr == "keys":
+            return list(d.keys)
+    if isinstance(it, ast.Dict):
+        return list(it.keys)
+    return None
+
+
+def _target_values(target, it, name, fn_node, seen):
+    """values the loop variable `name` takes when `target` iterates over `it`; False when `name` is not bound by this target"""
+    names = [x.id for x in ast.walk(target) if isinstance(x, ast.Name)]
+    if name not in names:
+        return False
+    elems = _seq_elements(it, fn_node)
+    if elems is None:
+        return None
+    out = set()
+    for e in elems:
+        v = e
+        if isinstance(target, (ast.Tuple, ast.List)):
+            pos = [i for i, t in enumerate(target.elts) if isinstance(t, ast.Name) and t.id == name]
+            if not pos or not isinstance(e, (ast.Tuple, ast.List)) or pos[0] >= len(e.elts):
+                return None
+            v = e.elts[pos[0]]
+        cv = const_values(v, fn_node, seen)
+        if cv is None:
+            return None
+        out |= cv
+    return out
+
+
+def _comp_values(elt, generators, fn_node, seen):
+    if isinstance(elt, ast.Name):
+        for g in generators:
+            cv = _target_values(g.target, g.iter, elt.id, fn_node, seen)
+            if cv is not False:
+                return cv
+    return const_values(elt, fn_node, seen)
